@@ -18,6 +18,13 @@ MCRoutesLive == {<<<<"R", "B">>>>, <<<<"R", "R">>, <<"B", "B">>>>}
 ConcFaults == {"lose", "corrupt", "cifail"}
 MCRoutesConc == {<<<<"B", "B">>>>, <<<<"R", "B">>>>}
 
+MCChunks1 == {"c1"}
+MCHolder1 == [n \in MCNodes |-> IF n = "B" THEN MCChunks1 ELSE {}]
+OnlyA == {"A"}
+TickFaults == {"lose", "corrupt"}
+LoseOnly == {"lose"}
+MCRoutesTick == {<<<<"R", "R">>, <<"B", "B">>>>, <<<<"R", "B">>>>}
+
 CallDone(k) == k \in CallIds /\ calls[k].pc = "done"
 Terminates == \A k \in 1..8 : (k \in CallIds) ~> CallDone(k)
 ============================================================================
